@@ -226,3 +226,43 @@ Proof.
   induction T as [|n T IH]; intros dst; cbn [map_nests_go]; [eexists; reflexivity|].
   destruct (Hall n (or_introl eq_refl)) as (n' & ->). apply IH. intros k Hk. apply Hall. right. exact Hk.
 Qed.
+
+(* ---------- the class part of the remapper is the mapping set's source -> target table ---------- *)
+
+Definition b_pairs (B : bremap) : amap := map (fun b => (b_from b, b_to b)) B.
+
+Lemma b_find_alookup B c : option_map b_to (b_find B c) = alookup (b_pairs B) c.
+Proof.
+  induction B as [|b B IH]; [reflexivity|]. cbn [b_find b_pairs map alookup].
+  fold (b_pairs B). rewrite <- IH. destruct (b_find B c) as [x|]; [reflexivity|].
+  cbn [option_map]. destruct (str_eqb (b_from b) c); reflexivity.
+Qed.
+
+Lemma b_class_pairs ra rb c l : b_class ra rb c = Ok l ->
+  b_pairs l = match nth_name (c_names c) 0, nth_name (c_names c) 1 with
+              | Some a, Some b => [(a, b)]
+              | _, _ => []
+              end.
+Proof.
+  unfold b_class. destruct (nth_name (c_names c) 0) as [a|]; [|intros [= <-]; reflexivity].
+  destruct (nth_name (c_names c) 1) as [b|]; [|intros [= <-]; reflexivity].
+  destruct (mapM _ (c_fields c)); [|discriminate]. destruct (mapM _ (c_methods c)); [|discriminate].
+  intros [= <-]. reflexivity.
+Qed.
+
+Lemma mk_bremap_pairs M B : mk_bremap M = Ok B -> b_pairs B = class_pairs (ms_classes M) 0 1.
+Proof.
+  unfold mk_bremap. destruct (mapM _ (ms_classes M)) as [l|] eqn:E; [|discriminate]. intros [= <-].
+  apply mapM_ok in E. unfold class_pairs.
+  induction E as [|c x cs l Hc _ IH]; [reflexivity|].
+  cbn [concat flat_map]. unfold b_pairs in *. rewrite map_app, IH. f_equal.
+  apply (b_class_pairs _ _ _ _ Hc).
+Qed.
+
+(* map_class of the remapper = look the class up in the (source, target) pairs of the mapping set *)
+Theorem b_map_class_is_mapping M B c :
+  mk_bremap M = Ok B -> b_map_class B c = map_class (class_pairs (ms_classes M) 0 1) c.
+Proof.
+  intros H. unfold b_map_class, map_class. rewrite <- (mk_bremap_pairs M B H), <- b_find_alookup.
+  destruct (b_find B c); reflexivity.
+Qed.
